@@ -21,10 +21,13 @@ RULE = ('perm: random profile, outcome under 3 random permutations of the dictio
         'identical outcomes. symmetric: profile P plus its image under a transposition (a b): a and b are both elected, both tied or both out. '
         'thorough tier: exhaustive-small-simple = EVERY simple-vote profile over <= 3 candidates with totals 0..3, every n, every permutation and the '
         'order-reversing renaming, for all simple-vote evaluators. non-trivial = the outcome contains a tie or a refusal, or the profile has > 3 candidates; distinct by case hash')
-PARTIAL = ['order / renaming / hash-seed independence of everything except get_n_best, the additive converters, highest averages and the Condorcet family is decided per explored case; '
-           'highest averages is proved order-independent and renaming-equivariant (C10_highest_averages_order / _rename); the Condorcet family on pairwise dictionaries is proved '
-           'order-independent (C10_condorcet_*_order; Schulze and the Smith set for non-negative counts, ranked pairs for pairwise distinct sort keys; Schwartz and ranked pairs '
-           'with equal strengths refuted), its renaming equivariance is decided per explored case']
+PARTIAL = ['order / renaming / hash-seed independence of the evaluators without a Gallina model here '
+           '(STAR, allocated score, Bucklin family, Tideman / Benham ...) are decided per explored case; '
+           'proved: order independence of get_n_best, the additive converters, highest averages, the quota family, the STV count and the Condorcet family '
+           '(Schulze and the Smith set for non-negative counts, ranked pairs for pairwise distinct sort keys; Schwartz and ranked pairs with equal strengths refuted); '
+           'renaming equivariance (exact equality, f injective) of the Condorcet family, QuotaDistributor / LargestRemainder / QuotaSelector, the STV count, SPAV, the score '
+           'aggregation, ScoreVoting, MajorityJudgment (C10_rename_*); PAV up to the order of equally placed winners for every iteration order of the candidate set '
+           '(C10_pav_iteration_order, C10_rename_pav); PAV and SPAV return the same answer for every ballot order (C10_pav_order, C10_spav_order); the score aggregation, ScoreVoting and MajorityJudgment (both tie-breakers) are ballot-order independent up to == scores / the order inside ties (C10_score_to_simple_order, C10_score_voting_order, C10_majority_judgment_order)']
 TRUSTED = ['harness/c10_worker.py (subprocess evaluation under a chosen PYTHONHASHSEED)']
 SEEDS_Q = [0, 1, 2, 3, 4, 12345]
 SEEDS_T = SEEDS_Q + [5, 6, 7, 8, 9, 10, 11, 99, 2024, 4294967295]
